@@ -255,6 +255,18 @@ def nt_dec_segmented(c):
     return any(len(op['in']) > 20 and (op['in'][20] & 0x0C) for op in _dec_ops(c))
 
 
+def ntop_segment(op):
+    return op.get('op') == 'decode' and len(op['in']) > 20 and (op['in'][20] & 0x0C) != 0
+
+
+def ntop_fault(op):
+    return op.get('fault') not in (None, 'none') or op.get('meta', {}).get('fault') not in (None, 'none')
+
+
+def ntop_decode(op):
+    return op.get('op') == 'decode'
+
+
 def nt_dec_fault(c):
     return any(op.get('fault') or op.get('meta', {}).get('fault') not in (None, 'none') for op in c.get('ops', []))
 
@@ -346,34 +358,35 @@ PROPS = {
             'rule': 'as C09; every encode event also logs the frames of a fresh encoder with the same ids; monitor '
                     'SameUpToShift. Non-trivial = distinct histories whose second or later encode call needed segmentation.',
             'assumptions': COMMON_ASSUMPTIONS},
-    'C05': {'level': 'model_checking', 'stages': [DEC_REASM, DEC_STREAMS], 'nontrivial_case': nt_dec_segmented,
+    'C05': {'level': 'model_checking', 'stages': [DEC_REASM, DEC_STREAMS], 'nontrivial_case': nt_dec_segmented, 'nontrivial_op': ntop_segment,
             'rule': 'MC_Link/Reassembly: per-endpoint senders of well-formed streams (unsegmented, 2..MaxSegs segments of every '
                     'size in SegSizes, optional trailing bytes / zero padding after a segment, counters crossing 65535->0), all '
                     'interleavings up to MaxFrames frames; every transition replayed on the real decoder (tree replay with '
                     'save/restore of decoder copies) with the private pending table compared through the hook; plus seeded random '
                     'streams on 1..6 endpoints with messages up to 65535 bytes and unequal segment sizes. Monitor: the call '
-                    'returns exactly what the sender-side ghost expects (C05 in TraceDec). Non-trivial = distinct episodes feeding '
-                    'at least one segment.',
+                    'returns exactly what the sender-side ghost expects (C05 in TraceDec). Non-trivial = distinct decode operations '
+                    'feeding a segment (tree stages) / distinct episodes feeding at least one segment (random stage).',
             'assumptions': COMMON_ASSUMPTIONS},
-    'C06': {'level': 'model_checking', 'stages': [DEC_FAULTS, DEC_RFAULTS], 'nontrivial_case': nt_dec_fault,
+    'C06': {'level': 'model_checking', 'stages': [DEC_FAULTS, DEC_RFAULTS], 'nontrivial_case': nt_dec_fault, 'nontrivial_op': ntop_fault,
             'rule': 'MC_Link/Faults: the Reassembly senders plus every placement of up to MaxFaults faults (drop, duplicate, '
                     'hold/release reordering, corrupt version, corrupt type); tree replay on the real decoder; plus seeded random '
                     'fault sequences. Monitors NoCorruption (every delivered packet equals a declared sent message of its '
-                    'endpoint) and Recovery (a last segment extending a clean run delivers). Non-trivial = distinct episodes '
-                    'containing at least one fault.',
+                    'endpoint) and Recovery (a last segment extending a clean run delivers). Non-trivial = distinct faulted '
+                    'operations (tree stage) / distinct episodes containing at least one fault (random stage).',
             'assumptions': COMMON_ASSUMPTIONS},
-    'C17': {'level': 'model_checking', 'stages': [DEC_ANY, DEC_RANY], 'nontrivial_case': nt_dec_segmented,
+    'C17': {'level': 'model_checking', 'stages': [DEC_ANY, DEC_RANY], 'nontrivial_case': nt_dec_segmented, 'nontrivial_op': ntop_segment,
             'rule': 'MC_DecAny: every history up to MaxFrames buffers over an alphabet of well-formed, orphan, out-of-order, '
                     'changed-version/type, trailing-byte, multi-message, invalid, truncated, header-only, undersized and '
                     'TECMP-routed buffers on NEndpoints endpoints, counters crossing the wrap; tree replay on the real decoder; '
                     'monitor: endpoints in the hook table = endpoints with an open clean run (ghost from the frames alone), '
-                    'buffered bytes <= bytes of the run. Non-trivial = distinct episodes feeding at least one segment.',
+                    'buffered bytes <= bytes of the run. Non-trivial = distinct decode operations feeding a segment (tree stage) / '
+                    'distinct episodes feeding at least one segment (random stage).',
             'assumptions': COMMON_ASSUMPTIONS + ['needs the read-only hook Decoder::verifPending()']},
-    'C18': {'level': 'model_checking', 'stages': [DEC_ANY, DEC_RANY], 'nontrivial_case': nt_dec_any,
+    'C18': {'level': 'model_checking', 'stages': [DEC_ANY, DEC_RANY], 'nontrivial_case': nt_dec_any, 'nontrivial_op': ntop_decode,
             'rule': 'as C17; the executor also runs one real solo decoder per endpoint on that endpoint\'s frames only; monitor: '
                     'packets returned by the shared decoder = packets of the solo decoder, every returned packet carries the '
-                    'frame\'s endpoint, non-CMP buffers leave the pending table untouched. Non-trivial = distinct episodes of at '
-                    'least two decode calls.',
+                    'frame\'s endpoint, non-CMP buffers leave the pending table untouched. Non-trivial = distinct decode operations (tree stage) / '
+                    'distinct episodes of at least two decode calls (random stage).',
             'assumptions': COMMON_ASSUMPTIONS},
     'C04': {'level': 'model_checking', 'stages': [DEC_MCFRAMES, DEC_FRAMES], 'nontrivial_case': nt_dec_any,
             'rule': 'MC_Frames: every frame of 0..MaxMsgs messages from a catalogue of 25 payloads (all kinds, consistent / '
@@ -411,7 +424,7 @@ PROPS = {
                     'every transition replayed on the real Status object (tree replay with copies); plus seeded random histories '
                     'of 300 (thorough 2000) operations over 14 device ids and 8 interface ids with full packets. Monitor: observed '
                     'entries as a map = abstract map, no duplicate ids, lookups = position in the observed order or the count. '
-                    'Non-trivial = distinct episodes containing updates and removals.',
+                    'Non-trivial = distinct operations (tree stage) / distinct episodes containing updates and removals (random stage).',
             'assumptions': COMMON_ASSUMPTIONS},
     'C14': {'level': 'model_checking', 'stages': [VAL_MC, VAL_RANDOM], 'nontrivial_case': nt_val,
             'rule': 'MC_Values: the complete state graph of a 3-slot object store over 8 values (empty packet, zero-length '
